@@ -28,13 +28,13 @@ DRIVER_TAIL = """
 """
 
 
-def module_run(name, p, par=False):
-    """`ascent_run!` with the inputs and one constant captured from locals"""
+def module_run(name, p, par=False, init_rels=None):
+    """`ascent_run!` with the inputs and one constant captured from locals (`init_rels`: only these relations get an initialiser)"""
     nm = eng.Names()
     macro = "ascent_run_par" if par else "ascent_run"
     n = len(p["rels"])
     tys = ["(" + "".join(t + "," for t in eng.col_types(p, r, nm)) + ")" for r in range(n)]
-    inits = {r: f"in{r}" + (".into_iter().collect()" if par else "") for r in range(n)}
+    inits = {r: f"in{r}" + (".into_iter().collect()" if par else "") for r in range(n) if init_rels is None or r in init_rels}
     decls = "\n            ".join(eng.rs_decls(p, nm, inits=inits))
     rules = "\n            ".join(eng.rs_rule(p, ru, nm) for ru in p["rules"])
     fields = "\n      ".join(f"pub in{r}: Vec<{tys[r]}>, pub out{r}: Vec<{tys[r]}>," for r in range(n))
@@ -115,6 +115,21 @@ def module_init(name, p, inp):
     return base
 
 
+def negagg_only_program(rng):
+    """the initialised relations are consulted ONLY through negation / aggregation (never in a head or a positive clause); the positive
+    relations are fed by a generator.  Under ascent_run! the initialisers must still be indexed before the first stratum runs."""
+    R = rng.range(3, 6)
+    fn = rng.choice(["count", "sum", "min", "max"])
+    p = {"rels": [{"arity": 1}, {"arity": 2}, {"arity": 1}, {"arity": 1}, {"arity": 2}], "rules": []}
+    p["rules"].append({"heads": [(2, [("var", 0)])], "body": [("for", 0, ("range", 0, R))]})
+    p["rules"].append({"heads": [(3, [("var", 0)])], "body": [("cl", 2, [("v", 0)], []), ("agg", [], "not", [], 0, [("k", ("var", 0))])]})
+    agg = ("agg", [21], fn, [] if fn == "count" else [20], 1, [("k", ("var", 0)), "_" if fn == "count" else ("b", 20)])
+    p["rules"].append({"heads": [(4, [("var", 0), ("var", 21)])], "body": [("cl", 2, [("v", 0)], []), agg]})
+    if rng.chance(1, 2):
+        p["rules"].append({"heads": [(3, [("add", ("var", 0), 10)])], "body": [("cl", 2, [("v", 0)], []), ("agg", [], "not", [], 1, [("k", ("var", 0)), "_"])]})
+    return p
+
+
 def has_agg(p): return any(it[0] == "agg" for ru in p["rules"] for it in ru["body"])
 
 
@@ -166,6 +181,20 @@ def build(rng, tier):
         inst = f"{pid}_init_0"
         cases.append(engcheck.Case(f"{pid}_init", inst, [f"eng new {inst} {pid}_init", f"eng run {inst}", f"eng dump {inst}"],
                                    {"inp": fixed_inp, "kind": "initialised", "baked": True}))
+    # initialised relations that only negation / aggregation consult, under ascent_run! / ascent_run_par! (only the input relations are initialised)
+    for i in range(2 if tier == "quick" else 8):
+        r4 = rng.fork(f"na{i}")
+        p = negagg_only_program(r4)
+        pid = f"na{i}"
+        variants = [(pid, eng.rs_module(pid, p), "base"), (f"{pid}_run", module_run(f"{pid}_run", p, init_rels={0, 1}), "ascent_run"),
+                    (f"{pid}_runpar", module_run(f"{pid}_runpar", p, par=True, init_rels={0, 1}), "ascent_run_par")]
+        for vid, text, kind in variants:
+            progs[vid] = p; mods.append((vid, text))
+        for j in range(3 if tier == "quick" else 8):
+            inp = {0: list(dict.fromkeys((r4.range(0, 6),) for _ in range(r4.range(1, 4)))), 1: list(dict.fromkeys((r4.range(0, 6), r4.range(0, 4)) for _ in range(r4.range(1, 6)))), 2: [], 3: [], 4: []}
+            for vid, text, kind in variants:
+                inst = f"{vid}_{j}"
+                cases.append(engcheck.Case(vid, inst, engcheck.std_history(inst, vid, inp), {"inp": inp, "kind": kind + " (initialisers consulted only by negation / aggregation)" if kind != "base" else kind}))
     # witness of finding F3 (fixed by 8b2e261; replayed on every run and must pass)
     w = {"rels": [{"arity": 2}, {"arity": 1}, {"arity": 2}],
          "rules": [{"heads": [(2, [("var", 0), ("var", 21)])], "body": [("cl", 1, [("v", 0)], []), ("agg", [21], "count", [], 0, [("k", ("var", 0)), "_"])]}]}
@@ -184,7 +213,7 @@ def canon(c, out):
     # variants whose driver differs from the model's history (ascent_run has no scc_iters; baked inputs are not `load`ed): judged by the oracle
     if c.meta["kind"] == "initialised":
         return ["<inputs baked into the program text: judged by the oracle>" for l in out]
-    if c.meta["kind"] in ("ascent_run", "ascent_run_par"):
+    if c.meta["kind"].startswith("ascent_run"):
         return ["<variant driver: judged by the oracle>" if not l.startswith("r0:") else "|".join(sorted(set(x.rsplit("*", 1)[0] for x in l.split()))) for l in out]
     return out
 
